@@ -91,7 +91,17 @@ pub fn gen_cli(rng: &mut Rng, prop: &str) -> CliCase {
         if rng.chance(1, 2) {
             let nf = rng.range(3, 12) as usize;
             let toks = crate::textsim::gen_schema_tokens(rng, nf);
-            autosql = Some(toks.join(" "));
+            let mut text = String::new();
+            if rng.chance(1, 3) {
+                // several declarations: the field count is the one of the last declaration
+                for _ in 0..rng.range(1, 5) {
+                    let n = rng.range(1, 4) as usize;
+                    text.push_str(&crate::textsim::gen_schema_tokens(rng, n).join(" "));
+                    text.push('\n');
+                }
+            }
+            text.push_str(&toks.join(" "));
+            autosql = Some(text);
         }
     }
     if pc.kind == Kind::Bed {
